@@ -38,7 +38,7 @@ def check(run, tier, seed, replay=None):
     pscs = [s for s in pc.random_phases(seed + 9, 1500 if tier == "quick" else 20000)]
     for i, s in enumerate(pscs):
         s["owner"]["paused"] = (i % 3 != 0)
-    setcheck.set_check(run, "C09", tier, seed, replay, 1000, 15000, "judge09",
+    setcheck.set_check(run, "C09", tier, seed, replay, 1000, 15000, "judge09g",
                        "C09 write on a member of a paused ObjectSet / phase",
                        "seeded random worlds with paused ObjectSets (members missing, modified, foreign-owned, uncached) through the real "
                        "controller, and paused owners of all five phase-controller flavours through the real PhaseReconciler",
@@ -46,3 +46,8 @@ def check(run, tier, seed, replay=None):
                        extra_identities=("C09 pause not handed to a delegated phase behind an incomplete earlier phase",))
     if not replay:
         deployment_stage(run, tier, seed)
+        # "yet keeps probing them": a paused owner reads through the dynamic cache only, so the cache must return what
+        # its informer holds whoever watched the kind first (real dynamiccache.Cache + real InformerMap, checks/C12.py)
+        import C12
+        C12.read_stage(run, "C09", tier, seed,
+                       "C09 paused owners probe through the dynamic cache: a read of a watched kind misses an object the informer holds")
